@@ -176,6 +176,9 @@ package fit
 //@ pred inv_io(d *decoder) := d.r != nil && d.crc != nil && dyncrc16.IsCrc16(d.crc) && (d.debug ==> d.opts.logger != nil)
 //@@ bytes delivered by the reader but not yet consumed are exactly the buffered ones
 //@ spec framepos(d *decoder) int := pos(d.r) - d.bytes.n - (d.bytes.j - d.bytes.i)
+//@@ content layer (clauses tagged {C02 C04 C12 C13}): the unread part of the buffer holds the stream bytes
+//@@ that follow the consumed ones; byte k of the frame is instream(d.r, framepos(d)+k)
+//@ pred inv_content(d *decoder) := forall k in d.bytes.i..d.bytes.j :: d.bytes.buf[k] == instream(d.r, pos(d.r)-(d.bytes.j-k))
 
 //@ func noEOF(err error) (r error)
 //@   props C01 C11
@@ -194,6 +197,7 @@ package fit
 //@   ensures [counters] d.bytes.n == old(d.bytes.n) && d.bytes.limit == old(d.bytes.limit)
 //@   ensures [framepos] framepos(d) == old(framepos(d))
 //@   ensures [monotone] pos(d.r) >= old(pos(d.r))
+//@   ensures [content] {C02 C04 C12 C13} inv_content(d)
 //@   assigns d.bytes.i, d.bytes.j, d.bytes.buf[..], pos(d.r), dyncrc16.GhostSum(d.crc)
 
 //@ func (d *decoder) readByte() (b byte, err error)
@@ -206,8 +210,12 @@ package fit
 //@   ensures [limit] d.bytes.limit == old(d.bytes.limit)
 //@   ensures [framepos] framepos(d) == old(framepos(d))
 //@   ensures [monotone] pos(d.r) >= old(pos(d.r))
+//@   requires [content] {C02 C04 C12 C13} inv_content(d)
+//@   ensures [content] {C02 C04 C12 C13} inv_content(d)
+//@   ensures [byte] {C02 C04 C12 C13} err == nil ==> b == instream(d.r, framepos(d)+old(d.bytes.n))
 //@   assigns d.bytes.i, d.bytes.j, d.bytes.n, d.bytes.buf[..], pos(d.r), dyncrc16.GhostSum(d.crc)
 //@   loop 0 invariant [inv] inv_bytes(d) && inv_io(d) && d.bytes.n == old(d.bytes.n) && d.bytes.limit == old(d.bytes.limit) && framepos(d) == old(framepos(d)) && pos(d.r) >= old(pos(d.r))
+//@   loop 0 invariant [content] {C02 C04 C12 C13} inv_content(d)
 //@   loop 0 decreases ite(d.bytes.i == d.bytes.j, 1, 0)
 
 //@ func (d *decoder) skipByte() (err error)
@@ -220,8 +228,11 @@ package fit
 //@   ensures [limit] d.bytes.limit == old(d.bytes.limit)
 //@   ensures [framepos] framepos(d) == old(framepos(d))
 //@   ensures [monotone] pos(d.r) >= old(pos(d.r))
+//@   requires [content] {C02 C04 C12 C13} inv_content(d)
+//@   ensures [content] {C02 C04 C12 C13} inv_content(d)
 //@   assigns d.bytes.i, d.bytes.j, d.bytes.n, d.bytes.buf[..], pos(d.r), dyncrc16.GhostSum(d.crc)
 //@   loop 0 invariant [inv] inv_bytes(d) && inv_io(d) && d.bytes.n == old(d.bytes.n) && d.bytes.limit == old(d.bytes.limit) && framepos(d) == old(framepos(d)) && pos(d.r) >= old(pos(d.r))
+//@   loop 0 invariant [content] {C02 C04 C12 C13} inv_content(d)
 //@   loop 0 decreases ite(d.bytes.i == d.bytes.j, 1, 0)
 
 //@ func (d *decoder) readFull(p []byte) (err error)
@@ -235,6 +246,11 @@ package fit
 //@   ensures [limit] d.bytes.limit == old(d.bytes.limit)
 //@   ensures [framepos] framepos(d) == old(framepos(d))
 //@   ensures [monotone] pos(d.r) >= old(pos(d.r))
+//@   requires [content] {C02 C04 C12 C13} inv_content(d) && !samebase(p, d.bytes.buf[:])
+//@   ensures [content] {C02 C04 C12 C13} inv_content(d)
+//@   ensures [bytes] {C02 C04 C12 C13} err == nil ==> forall k in 0..old(len(p)) :: old(p)[k] == instream(d.r, framepos(d)+old(d.bytes.n)+k)
+//@   loop 0 invariant [content] {C02 C04 C12 C13} inv_content(d)
+//@   loop 0 invariant [copied] {C02 C04 C12 C13} forall k in 0..old(len(p))-len(p) :: old(p)[k] == instream(d.r, framepos(d)+old(d.bytes.n)+k)
 //@   assigns d.bytes.i, d.bytes.j, d.bytes.n, d.bytes.buf[..], p[..], pos(d.r), dyncrc16.GhostSum(d.crc)
 //@   loop 0 invariant [inv] inv_bytes(d) && inv_io(d) && d.bytes.limit == old(d.bytes.limit) && framepos(d) == old(framepos(d)) && pos(d.r) >= old(pos(d.r))
 //@   loop 0 invariant [count] 0 <= len(p) && len(p) <= old(len(p)) && d.bytes.n == old(d.bytes.n)+(old(len(p))-len(p))
@@ -264,6 +280,7 @@ package fit
 //@   ensures [clean-eof-only] iserr(err, errReadSize) ==> cleanEnd(d.r, old(pos(d.r))) && pos(d.r) == old(pos(d.r))
 //@   ensures [clean-eof-reported] cleanEnd(d.r, old(pos(d.r))) ==> iserr(err, errReadSize)
 //@   assigns d.h.Size, d.h.ProtocolVersion, d.h.ProfileVersion, d.h.DataSize, d.h.DataType, d.h.CRC, d.tmp[..], pos(d.r), dyncrc16.GhostSum(d.crc)
+//@   gassign {C13} lastDef(d, *) := nil
 
 //@@ ------------------------------------------------------------------ profile lookups and definition validation
 
@@ -339,7 +356,22 @@ package fit
 //@ pred wf_defmsg(dm *defmsg) := dm.localMsgType <= 15 && (isLE(dm.arch) || isBE(dm.arch)) && dm.globalMsgNum != MesgNumInvalid &&
 //@  | (forall k in 0..len(dm.fieldDefs) :: compat(dm.globalMsgNum, dm.fieldDefs[k]))
 
+//@@ C13: the ghost table of the latest definition written for each local message type of the
+//@@ file being decoded. It is emptied when a header has been decoded and updated (ghost code at
+//@@ normal return) by every successfully parsed definition record; data records must be decoded
+//@@ with the entry of the local type named by their own header byte in the stream.
+//@ ghost func lastDef(d *decoder, s int) *defmsg
+//@ spec lastByte(d *decoder) byte := instream(d.r, framepos(d)+d.bytes.n-1)
+//@ pred defs_latest(d *decoder) := forall s in 0..16 :: d.defmsgs[s] == lastDef(d, s)
+
 //@ func (d *decoder) parseDefinitionMessage(recordHeader byte) (res *defmsg, err error)
+//@   slow content 90
+//@   requires [content] {C02 C04 C12 C13} inv_content(d)
+//@   ensures [content] {C02 C04 C12 C13} inv_content(d)
+//@   requires [header] {C13} d.bytes.n >= 1 && recordHeader == lastByte(d)
+//@   gassign {C13} lastDef(d, int(recordHeader&0x0F)) := res when err == nil
+//@   loop 0 invariant [content] {C02 C04 C12 C13} inv_content(d)
+//@   loop 1 invariant [content] {C02 C04 C12 C13} inv_content(d)
 //@   props C01 C10 C11 C13
 //@   slow framepos 90
 //@   ensures [not-clean-eof] !iserr(err, errReadSize)
@@ -461,7 +493,14 @@ package fit
 //@ pred dec_inv(d *decoder) := inv_bytes(d) && inv_io(d) && inv_unknown(d)
 //@ pred dec_step(d *decoder, n0 int, limit0 int, fp0 int, pos0 int) := d.bytes.n >= n0 && d.bytes.limit == limit0 && framepos(d) == fp0 && pos(d.r) >= pos0
 
+//@ spec pure recSlot(h byte) byte := slotOf(h, h&0x80 == 0x80)
+
 //@ func (d *decoder) parseDataFields(dm *defmsg, knownMsg bool, msgv reflect.Value) (r reflect.Value, err error)
+//@   requires [content] {C02 C04 C12 C13} inv_content(d)
+//@   ensures [content] {C02 C04 C12 C13} inv_content(d)
+//@   requires [def-of-record] {C13} d.bytes.n >= 1 && dm == lastDef(d, int(recSlot(lastByte(d))))
+//@   loop 0 invariant [content] {C02 C04 C12 C13} inv_content(d)
+//@   loop 4 invariant [content] {C02 C04 C12 C13} inv_content(d)
 //@   props C01 C10 C11
 //@   ensures [not-clean-eof] !iserr(err, errReadSize)
 //@   locals rangeindex int, j int, dsize int, padding int
@@ -494,6 +533,10 @@ package fit
 //@ spec pure slotOf(recordHeader byte, compressed bool) byte := ite(compressed, (recordHeader&0x60)>>5, recordHeader&0x0F)
 
 //@ func (d *decoder) parseDataMessage(recordHeader byte, compressed bool) (r reflect.Value, err error)
+//@   requires [content] {C02 C04 C12 C13} inv_content(d)
+//@   ensures [content] {C02 C04 C12 C13} inv_content(d)
+//@   requires [header] {C13} d.bytes.n >= 1 && recordHeader == lastByte(d) && compressed == (recordHeader&0x80 == 0x80)
+//@   requires [latest] {C13} defs_latest(d)
 //@   props C01 C10 C11 C13
 //@   ensures [not-clean-eof] !iserr(err, errReadSize)
 //@   reveal compat
@@ -546,6 +589,11 @@ package fit
 //@ pred file_inv(d *decoder) := d.file != nil
 
 //@ func (d *decoder) parseFileIdMsg() (err error)
+//@   requires [content] {C02 C04 C12 C13} inv_content(d)
+//@   ensures [content] {C02 C04 C12 C13} inv_content(d)
+//@   requires [latest] {C13} defs_latest(d)
+//@   ensures [latest] {C13} err == nil ==> defs_latest(d)
+//@   assigns {C13} lastDef(d, *)
 //@   props C01 C10 C11 C13
 //@   ensures [not-clean-eof] !iserr(err, errReadSize)
 //@   use fileid_known()
@@ -560,6 +608,13 @@ package fit
 //@   assigns d.file.FileId, d.file.FileCreator, d.file.TimestampCorrelation, d.file.fieldDescriptionMsgs, d.file.developerDataIdMsgs, ifaceobj(d.file.msgAdder)
 
 //@ func (d *decoder) decodeFileData() (err error)
+//@   requires [content] {C02 C04 C12 C13} inv_content(d)
+//@   ensures [content] {C02 C04 C12 C13} inv_content(d)
+//@   requires [latest] {C13} defs_latest(d)
+//@   ensures [latest] {C13} err == nil ==> defs_latest(d)
+//@   assigns {C13} lastDef(d, *)
+//@   loop 0 invariant [content] {C02 C04 C12 C13} inv_content(d)
+//@   loop 0 invariant [latest] {C13} defs_latest(d)
 //@   props C01 C10 C11 C13
 //@   ensures [not-clean-eof] !iserr(err, errReadSize)
 //@   requires dec_inv(d) && inv_defs(d) && file_inv(d) && file_ready(d.file)
@@ -633,6 +688,7 @@ package fit
 //@   ensures [clean-eof-only] iserr(err, errReadSize) ==> cleanEnd(r, old(pos(r))) && pos(r) == old(pos(r))
 //@   ensures [clean-eof-reported] cleanEnd(r, old(pos(r))) ==> iserr(err, errReadSize)
 //@   assigns allfields(d), pos(r)
+//@   assigns {C13} lastDef(d, *)
 
 //@ func CheckIntegrity(r io.Reader, headerOnly bool) (err error)
 //@   props C01 C10 C11
